@@ -121,3 +121,11 @@ Definition forward_same_ok (p : program) (vd : verdict) : bool :=
 
 Definition guard (p : program) (vd : verdict) : bool :=
   eager_plain p && backward_default_ok p vd && forward_same_ok p vd.
+
+(* ----- the statement ----- *)
+
+(* every verdict of the model that satisfies P flags a deletable line *)
+Definition verdict_sound_on (P : program -> verdict -> Prop) : Prop :=
+  forall (p : program) (vs : list verdict) (vd : verdict),
+    wf_program p = true -> check p = Ok vs -> In vd vs -> P p vd ->
+    deletable p (vd_flagged vd).
